@@ -140,6 +140,152 @@ def arg_name(arg):
     return None
 
 
+class LockGate(object):
+    """Harness-side stand-in for the attribute llc.lock while a concurrent group runs.  Every call goes to the real
+    RLock; in addition the FIRST acquisition of each member thread is recorded (arrival) and, when an admission order
+    is given, held back until every member has arrived at the lock (or has returned without ever needing it) and
+    then admitted in that order - member k goes on to the real lock as soon as member k-1 has got it.  So all members
+    are inside their calls, at the controller's lock, before the first one enters its critical section: the situation
+    that arises whenever the run loop holds the lock (collect / dispatch) while application threads call in.
+    Nothing here decides a verdict; a guard time-out only means that the forced window was not reached (counted)."""
+
+    def __init__(self, real, n, order=None, yield_p=0.0, yseed=0):
+        self.real = real
+        self.n = n
+        self.order = list(order) if order is not None else None
+        self.mu = threading.Condition(threading.Lock())
+        self.idx = {}            # thread ident -> member index
+        self.first = set()       # members whose first acquisition has been seen
+        self.arrived = []        # member indices in arrival order
+        self.entered = []        # member indices in the order they first got the real lock
+        self.finished = set()
+        self.log = []            # ("enter" | "exit", member index): call intervals, for the overlap count
+        self.window = False      # all members were at the lock (or done) before the first one entered
+        self.at_lock = ()        # members that waited at the lock at that moment
+        self.guard_hit = 0
+        self.yield_p = yield_p
+        self.yrng = random.Random(yseed)
+        self.yields = 0
+
+    # -- member bookkeeping (called from the member threads / the harness) ------------------------------
+    def register(self, i):
+        with self.mu:
+            self.idx[threading.get_ident()] = i
+            self.mu.notify_all()
+
+    def mark(self, what, i):
+        with self.mu:
+            self.log.append((what, i))
+            if what == "exit":
+                self.finished.add(i)
+            self.mu.notify_all()
+
+    def _present(self):
+        return len(self.finished.union(self.arrived)) >= self.n
+
+    def wait_present(self, timeout):
+        with self.mu:
+            ok = self.mu.wait_for(self._present, timeout)
+            if ok and not self.entered and not self.window:
+                self.window = True
+                self.at_lock = tuple(i for i in self.arrived if i not in self.finished)
+            return ok
+
+    def wait_registered(self, timeout):
+        with self.mu:
+            return self.mu.wait_for(lambda: len(self.idx) >= self.n, timeout)
+
+    # -- lock protocol ---------------------------------------------------------------------------------
+    def acquire(self, blocking=True, timeout=-1):
+        i = self.idx.get(threading.get_ident())
+        if i is None:
+            return self.real.acquire(blocking, timeout)
+        if i in self.first:
+            if self.yield_p and self.yrng.random() < self.yield_p:
+                self.yields += 1
+                time.sleep(0 if self.yrng.random() < 0.7 else 0.0002)
+            return self.real.acquire(blocking, timeout)
+        self.first.add(i)
+        with self.mu:
+            self.arrived.append(i)
+            self.mu.notify_all()
+            if self.order is not None:
+                if not self.mu.wait_for(self._present, GROUP_GUARD):
+                    self.guard_hit += 1
+                elif not self.entered and not self.window:
+                    self.window = True
+                    self.at_lock = tuple(j for j in self.arrived if j not in self.finished)
+                before = self.order[:self.order.index(i)]
+                if not self.mu.wait_for(lambda: all(j in self.entered or j in self.finished for j in before),
+                                        GROUP_GUARD):
+                    self.guard_hit += 1
+        if self.order is None and self.yield_p and self.yrng.random() < self.yield_p:
+            self.yields += 1
+            time.sleep(0 if self.yrng.random() < 0.7 else 0.0002)
+        r = self.real.acquire(blocking, timeout)
+        with self.mu:
+            self.entered.append(i)
+            self.mu.notify_all()
+        return r
+
+    def release(self):
+        self.real.release()
+
+    def __enter__(self):
+        return self.acquire()
+
+    def __exit__(self, *exc):
+        self.real.release()
+
+    def _is_owned(self):
+        return self.real._is_owned()
+
+    def _release_save(self):
+        return self.real._release_save()
+
+    def _acquire_restore(self, state):
+        return self.real._acquire_restore(state)
+
+    def overlapping_pairs(self):
+        """pairs of members whose calls were in progress at the same time (from the logical event order)"""
+        open_, pairs = set(), set()
+        for what, i in self.log:
+            if what == "enter":
+                for j in open_:
+                    pairs.add((min(i, j), max(i, j)))
+                open_.add(i)
+            else:
+                open_.discard(i)
+        return pairs
+
+
+GROUP_ACTS = ("bind", "listen", "sendto", "connect", "close")
+
+
+def how_bound(label):
+    """allocation rule behind a member operation: anonymous (bind() without argument and the implicit binds),
+    by-address, by-name; 'existing' for a socket that was bound before the group ran"""
+    return {"bind-none": "anonymous", "bind-addr": "by-address", "bind-name": "by-name",
+            "existing-socket": "existing"}.get(label, "anonymous" if label.startswith("implicit-") else "other")
+
+
+def act_label(act, arg, bound_before=False):
+    """structural name of a member operation (goes into signatures and counters)"""
+    if act == "bind":
+        if bound_before:
+            return "rebind"
+        if arg is None:
+            return "bind-none"
+        if isinstance(arg, bool) or isinstance(arg, float):
+            return "bind-other"
+        if isinstance(arg, int):
+            return "bind-addr"
+        return "bind-name" if arg_name(arg) is not None else "bind-other"
+    if act == "close":
+        return "close"
+    return "implicit-" + act
+
+
 class Hist(object):
     """executes one history against two real LLCs and the two address models"""
 
@@ -172,6 +318,13 @@ class Hist(object):
         self.inflight = False     # datagrams may still sit in a send queue
         self.used = set()         # connection-mode sockets that listened or were connected once
         self.stop = False
+        self.seen_orders = getattr(R, "c17_seen_orders", None)     # per shard: (member operations, lock order) seen
+        if self.seen_orders is None:
+            self.seen_orders = set()
+            try:
+                R.c17_seen_orders = self.seen_orders
+            except Exception:      # noqa
+                pass
 
     # -- plumbing -----------------------------------------------------------------------------------
     def _wire(self, direction, enc, p):
@@ -225,13 +378,16 @@ class Hist(object):
                     done.set()
         self.capture = cap = []
         th = None
+        ths = []
         for i in range(n):
             th = threading.Thread(target=body, args=(i,), daemon=True)
+            ths.append(th)
             th.start()
             if started:
                 started(i, th)
         idle = turns = 0
         hung = False
+        self.hang_kind = None
         guard = time.monotonic() + WALL_GUARD
         while turns < TURN_LIMIT:
             if done.wait(min(0.0001 * (1 << min(idle, 6)), 0.005)):
@@ -246,9 +402,16 @@ class Hist(object):
             if idle >= IDLE_LIMIT and sent(cap):
                 if not answered(cap):
                     hung = True
+                    self.hang_kind = "no-answer"
+                    break
+                if self.parked(ths):          # the answers were dispatched, nobody is left who could notify
+                    self.hang_kind = "answered-not-woken"
                     break
                 if done.wait(WALL_GUARD):     # the answer was delivered: the helpers only need CPU time
                     break
+            elif idle >= IDLE_LIMIT and self.parked(ths):
+                self.hang_kind = "never-sent"     # nothing is queued at either end, every caller left is waiting
+                break
             if time.monotonic() > guard:
                 break
         self.R.count("link_turns", 2 * turns)
@@ -258,6 +421,36 @@ class Hist(object):
         with lock:
             outs = list(res)
         return done.is_set(), outs, cap, hung
+
+    def parked(self, ths):
+        """structural, no clock: every helper thread that is still alive sits in an untimed Condition.wait called from
+        nfc code and has NOT been notified (its waiter lock is still taken).  Notifications only come from dispatch(),
+        i.e. from the harness thread itself, so once the link is idle such a thread stays where it is."""
+        import sys
+        from vf.core import watch
+        frames = sys._current_frames()
+        alive = [t for t in ths if t.is_alive()]
+        if not alive:
+            return False
+        for t in alive:
+            f = frames.get(t.ident)
+            if f is None:
+                return False
+            w = watch.classify(f)
+            if not (w.kind == "cond-wait" and w.timeout is None and w.notified is False and w.in_nfc):
+                return False
+        del frames
+        # a thread that has just been woken looks the same for a moment (it holds its waiter lock again): confirm with
+        # the shared quiescence helper - identical innermost frame position over several samples between which a
+        # heartbeat thread of this process was scheduled
+        hb = watch.Heartbeat().start()
+        try:
+            q = watch.Quiescence(None, interval=0.02, samples=3, min_ticks=4, heartbeat=hb, budget=40)
+            status, infos = q.wait(lambda: ths)
+        finally:
+            hb.stop()
+        self.R.count("parked_helper_checks")
+        return status == "quiescent" and all(w.kind == "cond-wait" for w in infos.values())
 
     def pump(self, n):
         c = 0
@@ -276,6 +469,13 @@ class Hist(object):
             if not self.inflight:
                 return
             self.pump(1)
+
+    def fits_snl(self, end, name):
+        """adapter: the request for `name` fits one SNL PDU of the link (nfcpy never sends a longer one)"""
+        try:
+            return 3 + len(name.encode("latin-1")) <= int(self.llc[end].cfg["send-miu"])
+        except Exception:      # noqa
+            return False
 
     def addr_of(self, sid):
         return self.socks[sid].getsockname()
@@ -439,7 +639,14 @@ class Hist(object):
         if out[0] == "exc" and ms.addr not in m.tainted_addr:
             self.report("close/escape/" + exc_sig(out[1]), "close() of a %s socket bound to %r raised %r"
                         % (ms.kind, ms.addr, out[1]))
-        name = ms.name
+        self.note_closed(sid)
+        self.pump(1)
+
+    def note_closed(self, sid):
+        """model bookkeeping after close() of an open socket"""
+        end = self.end[sid]
+        m = self.m[end]
+        name = m.sock[sid].name
         freed = m.closed(sid)
         if freed is not None:
             self.R.count("addresses_freed")
@@ -453,7 +660,6 @@ class Hist(object):
         if p is not None:
             self.partner.pop(p, None)
             self.m[self.end[p]].sock[p].connected = False
-        self.pump(1)
 
     def table(self, end):
         """the controller's address table as far as it can be seen: access points with their members, service names"""
@@ -531,6 +737,348 @@ class Hist(object):
             self.R.count("judged_reclose")
         self.pump(1)
 
+    # -- concurrent application threads -------------------------------------------------------------------
+    def _grp_expect(self, mm, mem):
+        sid, act, arg = mem
+        if act == "bind":
+            return mm.expect_bind(sid, real_arg(arg))
+        if act == "close":
+            return AM.Expect("close", ok=[mm.sock[sid].addr])
+        return mm.expect_implicit(sid)
+
+    def _grp_allowed(self, mm, mem, outcome):
+        if mem[1] == "close":
+            return outcome[0] == "ok"
+        exp = self._grp_expect(mm, mem)
+        return (not exp.judged) or not mm.judge(mem[1], exp, outcome)
+
+    def _grp_apply(self, mm, mem, outcome):
+        sid, act, arg = mem
+        ms = mm.sock[sid]
+        if act == "close":
+            mm.closed(sid)
+        elif outcome[0] == "ok" and ms.addr is None and outcome[1] is not None:
+            name = arg_name(arg) if act == "bind" else None
+            mm.bound(sid, outcome[1], name if (name is not None and AM.name_class(name) is not False) else None)
+
+    def _grp_explain(self, m0, members, outcomes):
+        """a sequential order of the member operations under which the address model allows every observed outcome.
+        The table reached after a set of (concrete) outcomes does not depend on their order -> memo per set.
+        Returns (order or None, members no order could place)"""
+        n = len(members)
+        memo = {}
+        best = [frozenset(range(n))]
+
+        def rec(mm, left):
+            if not left:
+                best[0] = left
+                return []
+            if left in memo:
+                return memo[left]
+            if len(left) < len(best[0]):
+                best[0] = left
+            res = None
+            for i in sorted(left):
+                if self._grp_allowed(mm, members[i], outcomes[i]):
+                    m2 = mm.clone()
+                    self._grp_apply(m2, members[i], outcomes[i])
+                    r = rec(m2, left - {i})
+                    if r is not None:
+                        res = [i] + r
+                        break
+            memo[left] = res
+            return res
+        return rec(m0.clone(), frozenset(range(n))), sorted(best[0])
+
+    def op_cgroup(self, end, members, sched, probe=None):
+        """members [[sid, action, argument], ...] run at the same time in one thread each (own socket each, all on
+        the controller of `end`); sched {"mode": chain|held|free, "order": admission order, "p": yield probability,
+        "y": yield seed}; probe: a datagram socket of the other end that afterwards sends one datagram to every
+        address the group has bound"""
+        n = len(members)
+        mode = sched.get("mode", "chain")
+        if not (2 <= n <= 6) or mode not in ("chain", "held", "free"):
+            return False
+        sids = [mem[0] for mem in members]
+        if len(set(sids)) != n or any(not self.usable(x) or self.end[x] != end for x in sids):
+            return False
+        m, llc = self.m[end], self.llc[end]
+        for sid, act, arg in members:
+            ms = m.sock[sid]
+            if act not in GROUP_ACTS:
+                return False
+            if act in ("listen", "sendto", "connect") and ms.addr is not None:
+                return False         # only the implicit bind is of interest here
+            if act == "listen" and (ms.kind != AM.DLC or sid in self.used or ms.parent is not None):
+                return False
+            if act in ("sendto", "connect") and ms.kind != AM.LDL:
+                return False
+            if act == "close" and ms.kind == AM.DLC:
+                return False         # closing a connection waits for the DISC handshake: not a table operation
+        order = list(sched.get("order") or range(n))
+        if sorted(order) != list(range(n)):
+            return False
+        self.settle()
+        pe = other(end)
+        before = [m.sock[sid].addr for sid in sids]
+        labels = [act_label(act, arg, before[i] is not None) for i, (sid, act, arg) in enumerate(members)]
+        m0 = m.clone()
+        sent = {}
+
+        def make(i):
+            sid, act, arg = members[i]
+            s = self.socks[sid]
+            if act == "bind":
+                return lambda: s.bind(real_arg(arg))
+            if act == "listen":
+                return lambda: s.listen(arg)
+            if act == "connect":
+                return lambda: s.connect(arg)
+            if act == "close":
+                return s.close
+            did = self.next_id
+            self.next_id += 1
+            payload = b"D" + did.to_bytes(4, "big") + end.encode() + b"grp"
+            sent[i] = did
+            # registered before the call: the link is turning, the datagram may arrive before the call has returned
+            self.dg[did] = {"end": end, "src": None, "dst": arg, "payload": payload, "got": 0, "skip": True}
+            return lambda: s.sendto(payload, arg, self.llcp.MSG_DONTWAIT)
+        fns = [make(i) for i in range(n)]
+        real = llc.lock
+        gate = LockGate(real, n, order=order if mode == "chain" else None,
+                        yield_p=float(sched.get("p", 0.0)) if mode == "free" else 0.0, yseed=int(sched.get("y", 0)))
+        res = [None] * n
+        go = threading.Event()
+        done = threading.Event()
+        left = [n]
+
+        def body(i):
+            gate.register(i)
+            go.wait(GROUP_GUARD)
+            gate.mark("enter", i)
+            try:
+                out = self.call(fns[i])
+            except BaseException as e:     # noqa
+                out = ("exc", e)
+            res[i] = out
+            gate.mark("exit", i)
+            with gate.mu:
+                left[0] -= 1
+                if left[0] == 0:
+                    done.set()
+        threads = [threading.Thread(target=body, args=(i,), daemon=True, name="c17-member-%d" % i) for i in range(n)]
+        llc.lock = gate
+        turns = 0
+        try:
+            for th in threads:
+                th.start()
+            registered = gate.wait_registered(GROUP_GUARD)
+            if mode == "held" and registered:
+                # the lock is taken (as by the run loop in collect / dispatch) while the members call in
+                real.acquire()
+                try:
+                    go.set()
+                    gate.wait_present(GROUP_GUARD)
+                finally:
+                    real.release()
+            else:
+                go.set()
+            guard = time.monotonic() + GROUP_GUARD
+            while not done.wait(0.0002):
+                self.lp.pump()      # the link keeps turning: collect() / dispatch() take the controller's lock
+                turns += 1
+                if turns >= TURN_LIMIT or time.monotonic() > guard:
+                    break
+            finished = done.wait(0 if turns < TURN_LIMIT else WALL_GUARD)
+        finally:
+            llc.lock = real
+        self.R.count("link_turns", 2 * turns)
+        self.R.count("helper_threads", n)
+        self.R.count("cgroup_link_turns_beside_members", turns)
+        if not finished:
+            self.R.inconc("a member of a concurrent group (%s) did not return" % "+".join(sorted(set(labels))))
+            self.R.count("cgroup_member_hung")
+            self.stop = True
+            return
+        outs = list(res)
+        after = [self.addr_of(sid) for sid in sids]
+        # -- what the schedule was
+        self.R.count("cgroup_mode_" + mode)
+        self.R.count("cgroup_size_%d" % n)
+        self.R.count("cgroup_members", n)
+        if gate.guard_hit:
+            self.R.count("cgroup_gate_guard_expired", gate.guard_hit)
+        if gate.yields:
+            self.R.count("cgroup_yields_injected", gate.yields)
+        pairs = gate.overlapping_pairs()
+        self.R.count("cgroup_overlapping_pairs", len(pairs))
+        lock_order = "".join(str(i) for i in gate.entered)
+        key = "%s|%s" % (",".join(labels), lock_order)
+        if key not in self.seen_orders:
+            self.seen_orders.add(key)
+            self.R.count("cgroup_new_lock_order")
+        self.R.seen("cgroup_lock_orders", "%d:%s" % (n, lock_order))
+        if gate.window:
+            self.R.count("cgroup_window_all_at_lock")
+            at = [labels[i] for i in gate.at_lock]
+            anon = [x for x in at if x == "bind-none" or x.startswith("implicit-")]
+            if len(anon) >= 2:
+                self.R.count("cgroup_window_anonymous_pair")
+                if "bind-none" in anon and len(set(anon)) > 1:
+                    self.R.count("cgroup_window_anonymous_beside_implicit")
+            args_at = [(labels[i], repr(members[i][2])) for i in gate.at_lock]
+            for lab, ctr in (("bind-addr", "cgroup_window_same_address_pair"), ("bind-name", "cgroup_window_same_name_pair")):
+                a = [x for x in args_at if x[0] == lab]
+                if len(a) != len(set(a)):
+                    self.R.count(ctr)
+        # -- escapes
+        bad = False
+        for i, out in enumerate(outs):
+            if out[0] == "exc":
+                bad = True
+                self.report("concurrent/escape/%s/%s" % (labels[i], exc_sig(out[1])),
+                            "%s raised %r while %d other threads operated on other sockets of the controller"
+                            % (labels[i], out[1], n - 1))
+        outcomes = [("ok", after[i]) if out[0] == "ok" else ("err", out[1]) if out[0] == "err" else ("exc", None)
+                    for i, out in enumerate(outs)]
+        involved_addr = set(a for a in before + after if a is not None)
+        involved_addr |= set(arg for _, act, arg in members if act == "bind" and isinstance(arg, int) and 0 <= arg < 64)
+        involved_name = set(arg_name(arg) for _, act, arg in members if act == "bind" and arg_name(arg) is not None)
+        skip = bad or bool(involved_addr & m.tainted_addr) or bool(involved_name & m.tainted_name) or \
+            any(AM.WKS_STRICT.get(x) in m.tainted_addr for x in involved_name)
+        seq = None
+        if not skip:
+            self.judged += 1
+            self.R.count("cgroup_judged")
+            seq, rest = self._grp_explain(m0, members, outcomes)
+        # -- adopt what was observed (in the explaining order when there is one)
+        for i in (seq if seq is not None else range(n)):
+            self._grp_adopt(end, members[i], before[i], outs[i], after[i], sent.get(i))
+        complaints = []
+        if not skip:
+            # pairwise distinct addresses among the open sockets of this end
+            for a in sorted(set(x for x in after if x is not None)):
+                holders = [x for x in m.at.get(a, ()) if m.sock[x].open]
+                grp = [x for x in holders if x in sids and m.sock[x].open]
+                clash = [(x, y) for x in grp for y in holders if x != y and not m.may_share(x, y)]
+                if clash:
+                    x, y = clash[0]
+                    lx = labels[sids.index(x)]
+                    ly = labels[sids.index(y)] if y in sids else "existing-socket"
+                    complaints.append(("concurrent/address-handed-out-twice/" + "+".join(sorted([how_bound(lx), how_bound(ly)])),
+                                       "%d threads (%s) on one controller at the same time: two open sockets (%s, %s) "
+                                       "both report address %r" % (n, ", ".join(labels), lx, ly, a)))
+            if seq is None and not complaints:
+                i = rest[0]
+                oc = outcomes[i]
+                tail = "ok" if oc[0] == "ok" else errno.errorcode.get(oc[1], str(oc[1]))
+                exp = self._grp_expect(m0, members[i])
+                complaints.append(("concurrent/no-sequential-order-explains/%s-%s" % (labels[i], tail),
+                                   "%d threads (%s) on one controller at the same time: outcomes %s cannot be explained "
+                                   "by any sequential order; %s (argument %r) ended %s, the table before the group allowed %r"
+                                   % (n, ", ".join(labels), [("ok", o[1]) if o[0] == "ok" else errno.errorcode.get(o[1], o[1])
+                                                              for o in outcomes], labels[i], members[i][2], tail, exp)))
+        for sig, what in complaints:
+            self.report(sig, "%s [end %s, schedule %s, lock order %s]" % (what, end, mode, lock_order))
+        if complaints:
+            # witness: the schedule that was observed, as a forced admission order (replays deterministically)
+            if mode != "chain":
+                sched["was"] = mode
+                sched["mode"] = "chain"
+                sched["order"] = list(gate.entered) + [i for i in range(n) if i not in gate.entered]
+            for a in involved_addr:
+                m.taint(addr=a)
+            for x in involved_name:
+                m.taint(name=x)
+            for did in sent.values():
+                if did in self.dg:
+                    self.dg[did]["skip"] = True
+            return
+        if skip:
+            self.R.count("cgroup_unjudged")
+            return
+        # -- what kind of race it was (evidence)
+        for i, lab in enumerate(labels):
+            self.R.count("cgroup_member_" + lab)
+            if lab.startswith("implicit-") and outcomes[i][0] == "ok":
+                self.R.count("cgroup_implicit_binds")
+        for lab, ctr in (("bind-addr", "cgroup_one_winner_same_address"), ("bind-name", "cgroup_one_winner_same_name")):
+            byarg = {}
+            for i, l in enumerate(labels):
+                if l == lab:
+                    byarg.setdefault(repr(members[i][2]), []).append(outcomes[i][0])
+            for v in byarg.values():
+                if len(v) >= 2 and v.count("ok") == 1:
+                    self.R.count(ctr)
+        if "close" in labels and any(l != "close" for l in labels):
+            self.R.count("cgroup_close_beside_bind")
+            freed = set(before[i] for i, l in enumerate(labels) if l == "close")
+            if any(after[i] in freed for i, l in enumerate(labels) if l != "close" and outcomes[i][0] == "ok"):
+                self.R.count("cgroup_address_of_closing_socket_taken")
+        wanted = sum(1 for l in labels if l == "bind-none" or l.startswith("implicit-"))
+        if wanted >= 2 and len(m0.free(AM.DYNAMIC)) <= wanted:
+            self.R.count("cgroup_last_addresses_contested")
+            if any(o == ("err", errno.EAGAIN) for o in outcomes):
+                self.R.count("cgroup_losers_got_EAGAIN")
+        # -- delivery: the peer sends one datagram to every address the group has bound
+        if probe is None or not self.usable(probe) or self.end[probe] != pe or self.m[pe].sock[probe].kind != AM.LDL:
+            return
+        targets = [sid for i, sid in enumerate(sids) if m.sock[sid].open and m.sock[sid].kind != AM.DLC
+                   and m.sock[sid].addr is not None and before[i] is None and m.sock[sid].addr not in m.tainted_addr]
+        for sid in targets:
+            did = self.next_id
+            if self.m[pe].sock[probe].peer is not None:
+                break
+            self.op_sendto(probe, m.sock[sid].addr, 12, 0)
+            if did in self.dg:
+                self.dg[did]["want"] = sid
+                self.R.count("cgroup_probe_sent")
+        if targets:
+            self.pump(2)
+            for sid in targets:
+                self.op_recv(sid)
+
+    def _grp_adopt(self, end, mem, before, out, after, did):
+        """model bookkeeping for one member of a concurrent group (what op_bind / autobind / op_close do)"""
+        sid, act, arg = mem
+        m = self.m[end]
+        ms = m.sock[sid]
+        if act == "close":
+            if out[0] == "ok":
+                self.note_closed(sid)
+            return
+        if act == "bind":
+            name = arg_name(arg)
+            if out[0] == "ok" and before is None and after is not None:
+                valid_name = name if (name is not None and AM.name_class(name) is not False) else None
+                m.bound(sid, after, valid_name)
+                if valid_name is not None:
+                    self.epoch[end][valid_name] = self.epoch[end].get(valid_name, 0) + 1
+            return
+        if before is None and after is not None:
+            m.bound(sid, after)
+        if act == "listen" and out[0] == "ok":
+            ms.listening = True
+            self.used.add(sid)
+        elif act == "connect" and out[0] == "ok":
+            ms.peer = arg
+        elif act == "sendto" and did is not None:
+            rec = self.dg[did]
+            if not (out[0] == "ok" and out[1]):
+                del self.dg[did]
+            else:
+                rec["src"] = ms.addr
+                rec["skip"] = ms.addr in m.tainted_addr
+                self.R.count("datagrams_sent")
+                self.inflight = True
+                pm = self.m[other(end)]
+                for x in list(pm.at.get(arg, ())):
+                    self.targeted.add(x)
+                    if pm.sock[x].kind == AM.DLC:
+                        pm.sock[x].disturbed = True
+                        if x in self.partner:
+                            m.sock[self.partner[x]].disturbed = True
+
     # -- name resolution -------------------------------------------------------------------------------
     def op_resolve(self, end, name):
         peer = self.m[other(end)]
@@ -545,12 +1093,19 @@ class Hist(object):
         if not done:
             if hung and name not in peer.tainted_name:
                 self.report("resolve/no-answer", "resolve(%r): the request went out, the link fell idle, no answer" % name)
+            elif self.hang_kind == "answered-not-woken" and name not in peer.tainted_name:
+                self.report("resolve/answer-arrived-caller-still-waits", "resolve(%r): the answer was dispatched, the "
+                            "caller still waits un-notified on the resolver's condition, the link is idle" % name)
+            elif self.hang_kind == "never-sent" and self.fits_snl(end, name) and name not in peer.tainted_name:
+                self.report("resolve/request-never-sent", "resolve(%r): the caller waits un-notified, the link fell "
+                            "idle, the request never appeared on the wire although it fits one SNL PDU" % name)
             else:
                 self.R.inconc("resolve() helper did not return within the turn bound")
             self.stop = True      # the parked helper thread stays inside llc.resolve
             return
         if out[0] != "ok":
             self.report("resolve/escape/" + (exc_sig(out[-1])), "resolve(%r) raised %r" % (name, out[-1]))
+            self.asked[end].setdefault(name, -1)     # the answer may still reach the resolver's cache: not judged later
             return
         on_wire = any(f["t"] == "SNL" and f["sdreq"] for d, f in cap)
         self.judge_resolve("resolve", end, name, out[1], cached, stale, on_wire)
@@ -595,9 +1150,11 @@ class Hist(object):
                     % (name, end, val, sorted(allowed), (" (asked together with %s)" % sorted(batch)) if batch else ""))
         peer.taint(name=name)
 
-    def op_mresolve(self, end, names):
-        """k resolve() calls started before the link is pumped: their requests travel together"""
-        if not (2 <= len(names) <= 8):
+    def op_mresolve(self, end, names, mode="together"):
+        """k resolve() calls started before the link is pumped: their requests travel together (as many as fit one
+        SNL PDU).  mode "stagger": one link half-turn after every start, so that requests leave and answers arrive
+        while later callers are just starting to wait"""
+        if not (2 <= len(names) <= 12) or mode not in ("together", "stagger"):
             return False
         pe = other(end)
         peer = self.m[pe]
@@ -616,14 +1173,20 @@ class Hist(object):
             # the next helper starts when this one has queued its request (or has returned: answer from the cache)
             if queue is None:
                 time.sleep(0.003)
-                return
-            limit = time.monotonic() + 2.0
-            while th.is_alive() and len(queue) <= seen[0]:
-                if time.monotonic() > limit:
-                    self.R.count("batch_start_sync_timeout")
-                    break
-                time.sleep(0.0001)
-            seen[0] = len(queue)
+            else:
+                limit = time.monotonic() + 2.0
+                while th.is_alive() and len(queue) <= seen[0]:
+                    if time.monotonic() > limit:
+                        self.R.count("batch_start_sync_timeout")
+                        break
+                    time.sleep(0.0001)
+            if self.capture is not None:
+                self.capture.append(("*", {"t": "*start", "i": i, "sdreq": [], "sdres": []}))
+            if mode == "stagger" and i < len(names) - 1:
+                self.lp.turn(end if i % 2 == 0 else pe)
+                self.R.count("link_turns")
+            if queue is not None:
+                seen[0] = len(queue)
 
         def mine(cap, key):
             return [x for d, f in cap if d[0] == end and f["t"] == "SNL" for x in f[key]]
@@ -649,6 +1212,30 @@ class Hist(object):
             self.R.count("resolve_batches_in_one_snl")
         elif len(pdus) > 1:
             self.R.count("resolve_batches_split_over_several_snl")
+            self.R.seen("resolve_batch_split_shapes", "+".join(str(len(x)) for x in pdus))
+        if mode == "stagger":
+            self.R.count("resolve_batches_staggered")
+        # answers that arrive while other callers of the batch still wait (all resolvers share one condition)
+        tid_of = {}
+        for x in pdus:
+            for t, bn in x:
+                tid_of.setdefault(bn, t)
+        waiting, answered_t, answer_pdus, foreign = set(), set(), 0, 0
+        for d, f in cap:
+            if f["t"] == "*start":
+                if not info[f["i"]][0]:
+                    waiting.add(bnames[f["i"]])
+            elif d[0] == pe and f["t"] == "SNL":
+                got = set(t for t, _ in f["sdres"]) & set(tid_of.values())
+                if got:
+                    answer_pdus += 1
+                    answered_t |= got
+                    foreign += sum(1 for bn in waiting if tid_of.get(bn) not in answered_t)
+        if answer_pdus > 1:
+            self.R.count("resolve_batch_answers_in_several_snl")
+            self.R.max("max_snl_pdus_answering_one_batch", answer_pdus)
+        if foreign:
+            self.R.count("resolve_foreign_wakeups", foreign)
         for x in pdus:
             pat = "".join("A" if 0 in peer.lookup_allowed(n.decode("latin-1")) else "P" for _, n in x)
             if len(x) >= 2:
@@ -659,9 +1246,21 @@ class Hist(object):
                 self.R.count("batch_absent_before_present")
         if not done:
             missing = [n for n, o in zip(names, outs) if o is None]
+            unsent = [n for n in missing if n.encode("latin-1") not in set(bn for x in pdus for _, bn in x)]
             if hung and not all(n in peer.tainted_name for n in missing):
                 self.report("resolve-batch/no-answer", "%d resolve() calls started together: the requests went out, the "
                             "link fell idle, %d of them got no answer (%r)" % (len(names), len(missing), missing[:3]))
+            elif self.hang_kind == "answered-not-woken" and not any(n in peer.tainted_name for n in missing):
+                self.report("resolve-batch/answer-arrived-caller-still-waits",
+                            "%d resolve() calls at the same time, answers in %d SNL PDUs: every answer was dispatched, %d "
+                            "caller(s) still wait un-notified on the resolver's condition, the link is idle (%r)"
+                            % (len(names), answer_pdus, len(missing), [n[:24] for n in missing[:3]]))
+            elif self.hang_kind == "never-sent" and unsent and all(self.fits_snl(end, n) for n in unsent) \
+                    and not any(n in peer.tainted_name for n in missing):
+                self.report("resolve-batch/request-never-sent",
+                            "%d resolve() calls at the same time: the link fell idle, %d caller(s) wait un-notified and "
+                            "their requests never appeared on the wire although each fits one SNL PDU (%r)"
+                            % (len(names), len(unsent), [n[:24] for n in unsent[:3]]))
             else:
                 self.R.inconc("resolve() helpers of a batch did not return within the turn bound")
             self.stop = True      # parked helper threads stay inside llc.resolve
@@ -670,6 +1269,7 @@ class Hist(object):
         for name, bn, out, (cached, stale) in zip(names, bnames, outs, info):
             if out[0] != "ok":
                 self.report("resolve-batch/escape/" + (exc_sig(out[-1])), "resolve(%r) raised %r" % (name, out[-1]))
+                self.asked[end].setdefault(name, -1)     # the answer may still reach the resolver's cache
                 continue
             self.judge_resolve("resolve-batch", end, name, out[1], cached, stale, bn in on_wire, batch=names)
 
@@ -1103,6 +1703,13 @@ class Hist(object):
         if rec["got"] > 1:
             self.report("datagram/delivered-twice", "%s received datagram %d a second time" % (where, did))
             return
+        if rec.get("want") is not None:
+            if rec["want"] != sid:
+                self.report("concurrent/datagram-for-one-socket-received-by-another",
+                            "%s received the datagram sent to the address of another socket bound in the same "
+                            "concurrent group" % where)
+                return
+            self.R.count("cgroup_probe_delivered")
         self.R.count("datagrams_delivered")
         if ms.kind == AM.RAW:
             self.R.count("datagrams_delivered_raw")
@@ -1236,6 +1843,10 @@ WEIGHTS = {
 }
 OPKINDS = ("socket", "bind", "listen", "connect", "sendto", "recv", "resolve", "close", "dsend", "pump", "setbuf",
            "reclose", "mresolve", "snl")
+# profile "threads" (phase c): concurrent groups and long-name resolve batches between ordinary operations
+OPKINDS_T = ("socket", "bind", "close", "sendto", "recv", "resolve", "pump", "reclose", "mresolve", "cgroup", "lresolve")
+WEIGHTS_T = (5, 8, 9, 4, 3, 3, 1, 2, 2, 34, 12)
+LONG_NAME_LENGTHS = (59, 60, 70, 79, 80, 100, 121, 122, 160, 245)    # 4, 3, 3, 3, 2, 2, 2, 1, 1, 1 requests per SNL (MIU 248)
 
 
 class Gen(object):
@@ -1251,7 +1862,7 @@ class Gen(object):
                     ["urn:nfc:sn:handover"]
         self.fresh = 0
         self.kind_w = {"mixed": (4, 4, 2), "names": (2, 6, 1), "named-exhaust": (3, 3, 3), "dyn-exhaust": (4, 3, 3),
-                       "wks": (2, 4, 5), "dgram": (7, 1, 2), "conn": (1, 8, 0)}[profile]
+                       "wks": (2, 4, 5), "dgram": (7, 1, 2), "conn": (1, 8, 0), "threads": (5, 2, 3)}[profile]
         self.prelude()
 
     def new_sid(self):
@@ -1303,6 +1914,15 @@ class Gen(object):
             q.append(["socket", end, s, "dlc"])
             q.append(["bind", s, rng.choice([None, self.pool[0], "urn:nfc:sn:snep", rng.randrange(32, 64)])])
             q.append(["listen", s, rng.choice([1, 2, 4])])
+        elif self.profile == "threads":
+            self.crowded = None
+            if rng.random() < 0.35:
+                # all but a few dynamic addresses of one end are taken: the groups compete for the last ones
+                end = self.crowded = rng.choice("AB")
+                for i in range(rng.choice([27, 29, 30, 31])):
+                    s = self.new_sid()
+                    q.append(["socket", end, s, rng.choice(["ldl", "ldl", "raw"])])
+                    q.append(["bind", s, None])
 
     # -- helpers over the model state ---------------------------------------------------------
     def socks(self, end=None, pred=None):
@@ -1350,7 +1970,10 @@ class Gen(object):
             return self.queue.pop(0)
         rng = self.rng
         for _ in range(20):
-            kind = rng.choices(OPKINDS, WEIGHTS[self.profile])[0]
+            if self.profile == "threads":
+                kind = rng.choices(OPKINDS_T, WEIGHTS_T)[0]
+            else:
+                kind = rng.choices(OPKINDS, WEIGHTS[self.profile])[0]
             op = getattr(self, "g_" + kind)()
             if op is not None:
                 return op
@@ -1596,6 +2219,122 @@ class Gen(object):
         self.queue += pre + pre2 + [["snl", sid, names]]
         return self.queue.pop(0)
 
+    def g_lresolve(self):
+        """4..10 resolve() calls for names so long that only 1..4 requests fit one SNL PDU; about half of the names
+        are bound at the peer (some of those closed again) by operations queued in front"""
+        rng, h = self.rng, self.h
+        end = rng.choice("AB")
+        pe = other(end)
+        k = rng.choice([4, 5, 6, 6, 8, 10])
+        same = rng.choice(LONG_NAME_LENGTHS) if rng.random() < 0.6 else None
+        room = len(h.m[pe].free(AM.NAMED))
+        names, pre = [], []
+        for _ in range(k):
+            n = self.fresh_name() + "."
+            length = same or rng.choice(LONG_NAME_LENGTHS)
+            n += "x" * (length - len(n))
+            r = rng.random()
+            if r < 0.55 and room > 2:
+                room -= 1
+                sid = self.new_sid()
+                pre += [["socket", pe, sid, rng.choice(["ldl", "dlc", "raw"])], ["bind", sid, n]]
+                if r >= 0.42:
+                    pre.append(["close", sid])
+                    room += 1
+            names.append(n)
+        self.queue += pre + [["mresolve", end, names, rng.choice(["together", "together", "stagger"])]]
+        return self.queue.pop(0)
+
+    def pick_dest(self, pe):
+        """destination for a datagram to end `pe`: mostly an address where a datagram socket / raw access point is"""
+        rng, pm = self.rng, self.h.m[pe]
+        tgt = [a for a in pm.at if pm.at[a] and all(pm.sock[x].kind != "dlc" for x in pm.at[a])]
+        for _ in range(8):
+            dest = rng.choice(tgt) if tgt and rng.random() < 0.7 else rng.randrange(2, 64)
+            if dest not in pm.tainted_addr and not any(pm.sock[x].kind == "dlc" for x in pm.at.get(dest, ())):
+                return dest
+        return None
+
+    def g_cgroup(self):
+        """a group of application threads: mostly anonymous and implicit binds, with binds to one contested address /
+        name, binds to the address a closing socket frees and plain closes in between"""
+        rng, h = self.rng, self.h
+        crowded = getattr(self, "crowded", None)
+        end = crowded if crowded and rng.random() < 0.7 else rng.choice("AB")
+        pe = other(end)
+        m = h.m[end]
+        n = rng.choice([2, 2, 2, 3, 3, 4, 5])
+        free = m.free(AM.DYNAMIC)
+        closable = sorted((x for x in self.socks(end=end, pred=lambda s: s.kind != "dlc" and s.addr is not None
+                                                 and s.addr not in m.tainted_addr)), key=str)
+        style = rng.choices(["anonymous", "one-address", "one-name", "mixed"], (36, 18, 12, 34))[0]
+        pre, members = [], []
+        hot_addr, hot_name, closing = None, None, []
+        for k in range(n):
+            r = rng.random() * (0.62 if style == "anonymous" else 1.0)
+            if k < 2 and style == "one-address":
+                r = 0.70        # two members ask for the same address
+            elif k < 2 and style == "one-name":
+                r = 0.85        # ... for the same name
+            kind = rng.choices(["ldl", "dlc", "raw"], (5, 2, 3))[0]
+            if r < 0.35:
+                act, arg = "bind", None
+            elif r < 0.45:
+                act, arg, kind = "listen", rng.choice([1, 2]), "dlc"
+            elif r < 0.55:
+                act, arg, kind = "sendto", self.pick_dest(pe), "ldl"
+                if arg is None:
+                    act, arg = "bind", None
+            elif r < 0.62:
+                act, arg, kind = "connect", rng.randrange(2, 64), "ldl"
+            elif r < 0.78:
+                q = rng.random()
+                if hot_addr is not None and (q < 0.45 or (k < 2 and style == "one-address")):
+                    arg = hot_addr
+                elif closing and q < 0.65:
+                    arg = m.sock[rng.choice(closing)].addr
+                elif free and q < 0.9:
+                    arg = rng.choice(free)
+                elif kind == "raw":
+                    arg = rng.randrange(2, 32)
+                else:
+                    arg = rng.randrange(32, 64)
+                act, hot_addr = "bind", arg
+            elif r < 0.90:
+                q = rng.random()
+                if hot_name is not None and (q < 0.45 or (k < 2 and style == "one-name")):
+                    arg = hot_name
+                elif q < 0.55:
+                    arg = "urn:nfc:sn:snep"
+                elif q < 0.65 and m.names:
+                    arg = rng.choice(sorted(m.names))
+                else:
+                    arg = self.fresh_name()
+                act, hot_name = "bind", arg
+            elif closable:
+                sid = closable.pop(rng.randrange(len(closable)))
+                closing.append(sid)
+                members.append([sid, "close", None])
+                continue
+            else:
+                act, arg = "bind", None
+            sid = self.new_sid()
+            pre.append(["socket", end, sid, kind])
+            members.append([sid, act, arg])
+        probes = self.socks(end=pe, pred=lambda s: s.kind == "ldl" and s.addr is not None and s.peer is None
+                            and s.addr not in h.m[pe].tainted_addr)
+        if probes:
+            probe = sorted(probes, key=str)[0]
+        else:
+            probe = self.new_sid()
+            pre += [["socket", pe, probe, "ldl"], ["bind", probe, None]]
+        order = list(range(len(members)))
+        rng.shuffle(order)
+        sched = {"mode": rng.choice(["chain", "chain", "chain", "held", "held", "free"]), "order": order,
+                 "p": rng.choice([0.0, 0.3, 0.7]), "y": rng.randrange(1 << 30)}
+        self.queue += pre + [["cgroup", end, members, sched, probe]]
+        return self.queue.pop(0)
+
     def g_dsend(self):
         c = [x for x in self.h.partner if self.h.usable(x)]
         return ["dsend", self.rng.choice(sorted(c, key=str))] if c else None
@@ -1608,6 +2347,21 @@ class Gen(object):
         return ["setbuf", self.rng.choice(c), self.rng.choice([1, 2, 4])] if c else None
 
 
+def guarded(h, fn):
+    """an exception that comes out of nfcpy code in the harness thread (a link turn: collect / encode / decode /
+    dispatch, or a non-blocking API call outside the judged ones) ends the history: the controller failed while it
+    served the history's addressing operations.  Harness errors (no nfc frame) propagate."""
+    try:
+        fn()
+    except Exception as e:      # noqa
+        sig = exc_sig(e)
+        if sig.endswith("@?"):
+            raise
+        h.report("link-turn/escape/" + sig, "a link turn of the history raised %r: the controller cannot serve the "
+                 "operations in progress (%r)" % (e, h.ops[-1][:2] if h.ops else None))
+        h.stop = True
+
+
 def run_random(R, rng, profile, n_ops):
     h = Hist(R)
     g = Gen(h, rng, profile)
@@ -1618,9 +2372,9 @@ def run_random(R, rng, profile, n_ops):
         if op is None:
             continue
         n += 1
-        h.execute(op)
+        guarded(h, lambda: h.execute(op))
     if not h.stop:
-        h.drain()
+        guarded(h, h.drain)
     return h
 
 
@@ -1629,9 +2383,9 @@ def run_ops(R, ops):
     for op in ops:
         if h.stop:
             break
-        h.execute(_listify(op))
+        guarded(h, lambda: h.execute(_listify(op)))
     if not h.stop:
-        h.drain()
+        guarded(h, h.drain)
     return h
 
 
@@ -1734,8 +2488,10 @@ def short_words(maxlen, tail_len=0):
 def plan(tier, seed):
     n = 16
     if tier == "quick":
-        return [{"hist": 125, "ops": 60, "short_len": 3, "short_tail": 4, "timeout": 600} for _ in range(n)]
-    return [{"hist": 3000, "ops": 60, "short_len": 4, "short_tail": 0, "timeout": 3000} for _ in range(n)]
+        return [{"hist": 125, "ops": 60, "short_len": 3, "short_tail": 4, "thr": 8, "thr_ops": 45, "timeout": 600}
+                for _ in range(n)]
+    return [{"hist": 3000, "ops": 60, "short_len": 4, "short_tail": 0, "thr": 200, "thr_ops": 45, "timeout": 3000}
+            for _ in range(n)]
 
 
 SHRINK_RUNS = 120
@@ -1800,6 +2556,14 @@ def run(desc, R, rng):
         finish(R, h, profile, state)
         if i < 1 and shard < 2:
             R.sample({"profile": profile, "first_ops": h.ops[:12]})
+    # (c) histories with concurrent application threads (after the others: their random draws stay as they were)
+    for i in range(desc.get("thr", 0)):
+        h = run_random(R, rng, "threads", desc.get("thr_ops", 45))
+        R.count("random_histories")
+        R.count("profile_threads")
+        finish(R, h, "threads", state)
+        if i < 1 and shard == 2:
+            R.sample({"profile": "threads", "group_ops": [o for o in h.ops if o[0] in ("cgroup", "mresolve")][:3]})
     faulthandler.cancel_dump_traceback_later()
 
 
